@@ -134,7 +134,8 @@ theorem moc_break_sound (hnd : P.Nodup) {d : Nat}
     cnt P e (p >>> (2 * e)) ≠ 4 ^ e :=
   moc_break_sound' hnd h hp he
 
-example : ∀ p ∈ [0, 1, 2, 7], cnt [0, 1, 2, 7] 1 (p >>> (2 * 1)) ≠ 4 ^ 1 := by decide
+example : cnt [0, 1, 2, 7] 2 (7 >>> (2 * 2)) ≠ 4 ^ 2 :=
+  moc_break_sound (P := [0, 1, 2, 7]) (d := 1) (by decide) (by decide) (by decide) (by decide)
 
 /-- Maximality.  Every written cell is fully valid, and none of its ancestors of order
     `minOrd ≤ o' < order` is: each cell is the coarsest fully valid ancestor that is not coarser
@@ -162,6 +163,11 @@ theorem moc_mem_iff (hnd : P.Nodup) (u : Nat) :
 
 example {u : Nat} (hu : u ∈ mocWrite 2 0 exP) : ∀ x, cellCovers 2 u x → x ∈ exP :=
   (moc_maximal exP_nodup exP_lt hu).1
+/-- On the instance: the order-0 cell 1 (UNIQ 5) is written, being the ancestor 2 levels above
+    pixel 20, fully valid, with no further level allowed (`maxOrd - minOrd = 2`). -/
+example : uniqOf 0 1 ∈ mocWrite 2 0 exP :=
+  (moc_mem_iff exP_nodup _).2 ⟨20, by decide, 2, by decide,
+    (full_test_iff exP_nodup 2 _).1 (by decide), fun _ h _ => h, by decide⟩
 
 /-! ### Write, then read -/
 
@@ -228,6 +234,8 @@ theorem isclose_exact_below_9 {d c : Nat} (hd : d ≤ 8) (hc : c < 4 ^ d) :
   have : (4 : Nat) ^ 8 = 65536 := by decide
   simp only [iscloseF32, decide_eq_false_iff_not]
   omega
+
+example : iscloseF32 (4 ^ 8 - 1) (4 ^ 8) = false := isclose_exact_below_9 (by decide) (by decide)
 
 /-- Structural part, for an arbitrary comparator `full`. -/
 theorem overcovers (full : Nat → Nat → Bool) (hnd : P.Nodup) {p d : Nat} (hp : p ∈ P)
